@@ -20,7 +20,7 @@ class BMSToOsu(ConvertBase):
             dict(
                 offset="offset",
                 column="column",
-                hitsound_file=bms.hits.sample.apply(str, args={"ascii"}),
+                hitsound_file=bms.hits.sample.apply(bytes.decode, args=("sjis",)),
             ),
         )
         osu.holds = cls.cast(
@@ -30,7 +30,7 @@ class BMSToOsu(ConvertBase):
                 offset="offset",
                 column="column",
                 length="length",
-                hitsound_file=bms.holds.sample.apply(str, args={"ascii"}),
+                hitsound_file=bms.holds.sample.apply(bytes.decode, args=("sjis",)),
             ),
         )
         osu.bpms = cls.cast(bms.bpms, OsuBpmList, dict(offset="offset", bpm="bpm"))
